@@ -222,7 +222,7 @@ macro_rules! repr_ops {
                 "is_even" => json!(a().is_even()),
                 "is_zero" => json!(a().is_zero()),
                 "cmp" => ordx_j(&a(), &b()),
-                "eq" => json!(a() == b()),
+                "eq" => json!(a() == b() && !(a() != b())),
                 "write_be" => {
                     let mut v = vec![];
                     a().write_be(&mut v).unwrap();
